@@ -717,6 +717,16 @@ Arguments exec_ev {val arg}. Arguments exec_begin {val arg}. Arguments exec_end 
 Arguments replay {val arg}. Arguments rpst0 {val arg}. Arguments rs_cfg {val arg}. Arguments rs_lab {val arg}.
 Arguments rs_rho {val arg}. Arguments model_stuck {val arg}. Arguments label_io {val arg}.
 
+(** the instance the check evaluates: contents are irrelevant ([unit]); every pointer field starts at an allocated object *)
+Definition cfg0 : cfg unit unit :=
+  {| c_lk := fun _ => LShared []; c_val := fun _ => tt; c_ptr := fun p => Nat.min p 15; c_heap := fun _ => tt;
+     c_next := 16; c_thr := fun _ => None |}.
+
+Lemma cfg0_initial : initial cfg0.
+Proof. repeat split; simpl; intros; lia. Qed.
+
+Definition wf1 : op unit -> nat -> list unit -> unit := fun _ _ _ => tt.
+
 (* ------------------------------------------------------------------ happens-before race detection on the items *)
 
 Definition vc := list nat.
